@@ -463,6 +463,35 @@ func ruleTraceHelper(c *Ctx, rule string) {
 		}
 	})
 	_ = dump
+	// a Content-Length the helper sets itself must be the length of what it writes
+	var written *an.Term
+	an.AllInstrs(f, func(in ssa.Instruction) {
+		if call, ok := in.(*ssa.Call); ok && call.Call.IsInvoke() && call.Call.Method.Name() == "Write" && isResponseWriter(call.Call.Value.Type()) {
+			written = c.O.Of(call.Call.Args[0])
+		}
+	})
+	an.AllInstrs(f, func(in ssa.Instruction) {
+		call, ok := in.(*ssa.Call)
+		if !ok || an.CalleeName(&call.Call) != "net/http.Header.Set" {
+			return
+		}
+		if n, _ := strConst(call.Call.Args[1]); n != "Content-Length" {
+			return
+		}
+		v := c.O.Of(call.Call.Args[2])
+		good := false
+		if written != nil && v.Op == "call" && (v.S == "strconv.Itoa" || v.S == "strconv.FormatInt") && len(v.Args) > 0 {
+			l := v.Args[0]
+			if l.Op == "convert" && len(l.Args) == 1 {
+				l = l.Args[0]
+			}
+			if l.Op == "call" && l.S == "builtin:len" && len(l.Args) == 1 {
+				w := written
+				good = l.Args[0].String() == w.String() || (w.Op == "convert" && len(w.Args) == 1 && l.Args[0].String() == w.Args[0].String())
+			}
+		}
+		c.R.Add(rule, c.fk(f), "content-length=len(body written)", c.pos(in), good, ifelse(good, "Content-Length is the length of the bytes written", "Content-Length is "+v.String()+", not the length of the body the helper writes: a real server truncates or rejects the response when the escaped dump is longer than the raw one"))
+	})
 	m := c.P.MustFunc("mux.Trace")
 	okFwd := false
 	an.AllInstrs(m, func(in ssa.Instruction) {
